@@ -102,7 +102,7 @@ def _rec(api: str, scn, exp, cod: Codec, why: str, got: Any, **extra) -> Dict[st
 
 
 def judge(scn: Dict[str, Any], exp: Dict[str, Any], *, unit: float = 1.0, as_timedelta: bool = False, falsy: bool = False,
-          with_error: bool = True, apis=("parse", "cold", "hot", "ctx")) -> List[Dict[str, Any]]:
+          with_error: bool = True, hist: bool = False, apis=("parse", "cold", "hot", "ctx")) -> List[Dict[str, Any]]:
     """Failure records (empty list = every API call agreed with the model)."""
     import reactivex
     from reactivex.observable.marbles import parse
@@ -116,7 +116,29 @@ def judge(scn: Dict[str, Any], exp: Dict[str, Any], *, unit: float = 1.0, as_tim
     ts_arg = timedelta(seconds=ts_f) if as_timedelta else ts_f
     sh_arg = timedelta(seconds=sh_f) if as_timedelta else sh_f
     fails: List[Dict[str, Any]] = []
-    extra = {"as_timedelta": as_timedelta}
+    extra = {"as_timedelta": as_timedelta, "hist": hist}
+    # the scheduler the observables run on: TestScheduler (float clock) or HistoricalScheduler (datetime clock)
+    if hist:
+        from reactivex.scheduler import HistoricalScheduler
+        from reactivex.scheduler.scheduler import UTC_ZERO
+
+        def new_sched():
+            return HistoricalScheduler()
+
+        def at(t):
+            return UTC_ZERO + timedelta(seconds=t)
+
+        def clock_of(sched):
+            return (sched.clock - UTC_ZERO).total_seconds()
+    else:
+        def new_sched():
+            return TestScheduler()
+
+        def at(t):
+            return float(t)
+
+        def clock_of(sched):
+            return sched.clock
 
     # ---- parse --------------------------------------------------------------------------------
     if "parse" in apis:
@@ -144,29 +166,29 @@ def judge(scn: Dict[str, Any], exp: Dict[str, Any], *, unit: float = 1.0, as_tim
     def record_on(sched, sink):
         def on_next(v):
             from reactivex.notification import OnNext
-            sink.append((sched.clock, OnNext(v)))
+            sink.append((clock_of(sched), OnNext(v)))
 
         def on_error(e):
             from reactivex.notification import OnError
-            sink.append((sched.clock, OnError(e)))
+            sink.append((clock_of(sched), OnError(e)))
 
         def on_completed():
             from reactivex.notification import OnCompleted
-            sink.append((sched.clock, OnCompleted()))
+            sink.append((clock_of(sched), OnCompleted()))
         return on_next, on_error, on_completed
 
     # ---- from_marbles / cold: no shift parameter -------------------------------------------------
     if "cold" in apis and par["shift"] == 0:
         for form in ("from_marbles", "cold"):
             try:
-                sched = TestScheduler()
+                sched = new_sched()
                 fn = getattr(reactivex, form)
                 obs = fn(s, timespan=ts_arg, lookup=cod.lookup_arg, error=cod.err) if form == "cold" else \
                     fn(s, timespan=ts_arg, scheduler=sched, lookup=cod.lookup_arg, error=cod.err)
                 sink: List[Any] = []
                 on = record_on(sched, sink)
-                sched.schedule_absolute(SUBSCRIBED, lambda *_: obs.subscribe(*on, scheduler=sched))
-                sched.advance_to(5000.0)
+                sched.schedule_absolute(at(SUBSCRIBED), lambda *_: obs.subscribe(*on, scheduler=sched))
+                sched.advance_to(at(5000.0))
                 if exp["rejected"]:
                     fails.append(_rec(form, scn, exp, cod, "not_rejected", len(sink), **extra))
                 else:
@@ -176,7 +198,7 @@ def judge(scn: Dict[str, Any], exp: Dict[str, Any], *, unit: float = 1.0, as_tim
                     # a second subscription of the cold observable gets the same diagram again
                     sink2: List[Any] = []
                     obs.subscribe(*record_on(sched, sink2), scheduler=sched)
-                    sched.advance_to(10000.0)
+                    sched.advance_to(at(10000.0))
                     why = _cmp(cod, exp["msgs"], sink2, 5000.0)
                     if why:
                         fails.append(_rec(form, scn, exp, cod, "resubscribe_" + why, [[t, cod.describe(n)] for t, n in sink2], **extra))
@@ -189,16 +211,18 @@ def judge(scn: Dict[str, Any], exp: Dict[str, Any], *, unit: float = 1.0, as_tim
     # ---- hot: the shift is the due time ------------------------------------------------------------
     if "hot" in apis:
         try:
-            sched = TestScheduler()
-            obs = reactivex.hot(s, timespan=ts_arg, duetime=sh_arg, lookup=cod.lookup_arg, error=cod.err, scheduler=sched)
+            sched = new_sched()
+            # on the datetime clock the due time is given as an absolute datetime
+            obs = reactivex.hot(s, timespan=ts_arg, duetime=at(sh_f) if hist else sh_arg, lookup=cod.lookup_arg, error=cod.err,
+                                scheduler=sched)
             # two subscribers from the start, and a late one (between two frames) which must see exactly
             # what is later than its subscription
             sinks: List[List[Any]] = [[], [], []]
             obs.subscribe(*record_on(sched, sinks[0]))
             obs.subscribe(*record_on(sched, sinks[1]))
             late_at = sh_f + 1.5 * ts_f
-            sched.schedule_absolute(late_at, lambda *_: obs.subscribe(*record_on(sched, sinks[2])))
-            sched.advance_to(5000.0)
+            sched.schedule_absolute(at(late_at), lambda *_: obs.subscribe(*record_on(sched, sinks[2])))
+            sched.advance_to(at(5000.0))
             if exp["rejected"]:
                 fails.append(_rec("hot", scn, exp, cod, "not_rejected", len(sinks[0]), **extra))
             else:
